@@ -215,6 +215,28 @@ async def received_big_notification(state, size):
         sess.cleanup()
 
 
+async def received_big_open(state, size):
+    """extended messages negotiated: RFC 8654 section 4 -- the larger size applies to every message except OPEN and KEEPALIVE;
+    an OPEN above 4096 octets is outside the bounds of its type, a header error (1/2) in whatever state"""
+    sess = S.Session(extra='capability { extended-message enable; }')
+    inp = {'state': state, 'fault': f'OPEN of {size} octets received, extended messages negotiated'}
+    caps = bytes([1, 4, 0, 1, 0, 1]) + bytes([2, 0]) + bytes([6, 0]) + bytes([65, 4]) + struct.pack('!L', 65002)
+    try:
+        try:
+            await sess.to_state(state, peer_open=S.open_msg(caps=caps))
+        except RuntimeError as e:
+            return {'what': f'harness could not reach {state}: {e}', 'input': inp, 'harness': True}
+        if sess.conn.msg_size != 65535:
+            return {'what': f'harness: extended messages were not negotiated (msg_size {sess.conn.msg_size})', 'input': inp, 'harness': True}
+        body = bytes([4]) + struct.pack('!HH', 65002, 180) + socket.inet_aton('10.0.0.9') + bytes([0])
+        await sess.remote.send(S.MARKER + struct.pack('!HB', size, 1) + body + bytes(size - 19 - len(body)))
+        written = await sess.remote.drain_until_close(timeout=4.0)
+        done = await sess.finish()
+        return judge(sess, written, (1, 2), inp, done, answered_notification=False)
+    finally:
+        sess.cleanup()
+
+
 # a NOTIFICATION shorter than 21 bytes is a header error under RFC 4271 6.1 (Bad Message Length, 1/2), which is reported;
 # section 6.4 only forbids reporting an error found INSIDE a NOTIFICATION.  Both silence and 1/2 are accepted.
 STATES = ('OPENSENT', 'OPENCONFIRM', 'ESTABLISHED')
@@ -236,6 +258,9 @@ def all_cases(tier):
     for st in ('OPENCONFIRM', 'ESTABLISHED'):
         for size in (4096, 4097, 5021, 65535):
             cases.append((f'{st}: notification of {size} octets received, extended messages negotiated', lambda st=st, size=size: received_big_notification(st, size)))
+    for st in ('OPENCONFIRM', 'ESTABLISHED'):
+        for size in (4097, 5000):
+            cases.append((f'{st}: open of {size} octets received, extended messages negotiated', lambda st=st, size=size: received_big_open(st, size)))
     for code in (2, 3, 4):
         cases.append((f'ESTABLISHED: api teardown {code}', lambda code=code: teardown(code)))
         cases.append((f'ESTABLISHED: api teardown {code}, peer announced graceful restart', lambda code=code: teardown(code, True)))
